@@ -39,7 +39,15 @@ class DecodedStrxSectionEditor:
     ) -> OrderedDict[str, int]:
         """Only add strings not already in the STRx, and which are unique."""
         unique_strings_to_add = OrderedDict()
-        already_existing_strings = set(decoded_strx_section.strings)
+        # a string already exists when some string ID resolves to it (offsets can be shared
+        # or point inside another string), not merely when it is stored in the string data
+        str_binary_data = ChkStrxTranscoder().encode(decoded_strx_section, include_header=False)
+        already_existing_strings = {
+            RichStrLookupBuilder.get_rich_string_by_offset(
+                offset=offset, str_binary_data=str_binary_data
+            ).value
+            for offset in decoded_strx_section.strings_offsets
+        }
         for string_to_add in strings_to_add:
             if string_to_add in already_existing_strings:
                 self.log.warning(
